@@ -1,10 +1,51 @@
 import Ldap3V.Driver.Util
+import Ldap3V.Model.Escape
+import Ldap3V.Spec.Dn
 namespace Ldap3V.Driver
 open Ldap3V
+
+def showEsc : EscOutcome → String
+  | .ok s => hexOf s
+  | .panicExpect => "panic"
+
+def showAttrVal : Spec.Dn.AttrVal → String
+  | .str v => "s:" ++ hexOf v
+  | .ber v => "b:" ++ hexOf v
+
+/-- `type=s:value+type=s:value;type=…` (all hex), `empty` for the empty DN -/
+def showDn (rdns : List (List Spec.Dn.Ava)) : String :=
+  if rdns.isEmpty then "empty" else
+  ";".intercalate (rdns.map fun rdn => "+".intercalate (rdn.map fun (t, v) => hexOf t ++ "=" ++ showAttrVal v))
 
 /-- line-protocol handler for the `Escape` family of commands; `none` = not mine -/
 def handleEscape (cmd arg : String) : Option String :=
   match cmd with
+  | "esc.ldap" => some (match unhex arg with
+      | some bs => showEsc (ldapEscapeO bs)
+      | none => "bad-request")
+  | "esc.dn" => some (match unhex arg with
+      | some bs => showEsc (dnEscapeO bs)
+      | none => "bad-request")
+  | "unesc.ldap" => some (match unhex arg with
+      | some bs => (match ldapUnescape bs with
+          | .ok s => "ok " ++ hexOf s
+          | .errDecodingUtf8 => "err")
+      | none => "bad-request")
+  | "spec.dn.readvalue" => some (match unhex arg with
+      | some bs => (match Spec.Dn.readValue bs with
+          | some (v, rest) => s!"ok {hexOf v} rest={rest.length}"
+          | none => "none")
+      | none => "bad-request")
+  | "spec.dn.parse" => some (match unhex arg with
+      | some bs => (match Spec.Dn.parse bs with
+          | some rdns => "ok " ++ showDn rdns
+          | none => "none")
+      | none => "bad-request")
+  | "spec.filtervalue.read" => some (match unhex arg with
+      | some bs => (match Spec.readFilterValue bs with
+          | some v => "ok " ++ hexOf v
+          | none => "none")
+      | none => "bad-request")
   | _ => none
 
 end Ldap3V.Driver
